@@ -263,6 +263,12 @@ static void exec_c08(const void *k, res_t *r, const runcfg_t *cfg) {
     if ((row->fl & F_DIN) && !(row->fl & F_DIN_TERM) && first_nul(X.dest_before, row->w, n) < 0) { res_label(r, "exempt:undefined-unterminated-input"); return; }
     if ((row->fl & F_VAL) && row->fam == FAM_FILL && c->val == 0) { res_label(r, "exempt:fill-value-0"); return; }
     L = first_nul(X.dest, row->w, n);
+    if (L < 0 && noslack) { /* the no-slack build's half of the statement: at least the terminator is present */
+        r->nontrivial = 1;
+        RES_VIOL(r, "C08:%s:no-terminator-in-noslack-build:%s", row->name, relclass(c));
+        RES_DETAIL(r, "successful call, no NUL within the first %zu elements of dest (library built with --disable-nullslack)", n);
+        return;
+    }
     if (L < 0) { res_label(r, "foreign-unterminated(C03)"); return; }
     if (!(row->fl & F_SRCSTR) && (row->fl & F_SLEN) && (row->fl & F_DSTR)) {
         /* strcpyfldout_s: copies slen characters, embedded NULs are data; the result ends at slen */
